@@ -58,6 +58,10 @@ def rf_configs(draw, spf_cap=4096, boundary_p=0.6, force=None):
         # even 1 ms files would be far above the cap: checks that look at every sample at every crash point / fault
         # use a moderate rate instead (large files are covered by the checks with spf_cap >= 2048)
         n, d = draw(st.sampled_from([(1, 1), (100, 1), (200, 3), (44100, 1), (1000, 1), (125, 2), (10, 3), (1001, 7), (48000, 1)]))
+    if not force_big and _spf(n, d, 1) > 100000:
+        # above 100 MHz even 1 ms files hold more than 10^5 samples: such cases cost seconds each and add nothing that the
+        # 10-100 MHz rates do not exercise
+        n, d = draw(st.sampled_from(HIGH_RATES))
     # file cadence: at least one sample in *every* file  <=> F*n >= 1000*d ; cap samples per file
     cands = [F for F in CADENCES if F * n >= 1000 * d and _spf(n, d, F) <= spf_cap]
     if not cands:
